@@ -18,6 +18,16 @@
   (and (<= p!len a!len)
        (forall ((j Int)) (! (=> (and (<= a!off j) (< j (+ a!off p!len))) (= (select a!arr j) (select p!arr (+ p!off (- j a!off))))) :pattern ((select a!arr j))))
        (forall ((j Int)) (! (=> (and (<= p!off j) (< j (+ p!off p!len))) (= (select p!arr j) (select a!arr (+ a!off (- j p!off))))) :pattern ((select p!arr j))))))
+; under_prefix is has_prefix behind a name: it unfolds only for the byte strings a query mentions
+; (used under quantifiers over events, where unfolding the definition for every index is hopeless)
+; opaque-begin under_prefix
+(define-fun under_prefix ((a!arr (Array Int (_ BitVec 8))) (a!off Int) (a!len Int) (p!arr (Array Int (_ BitVec 8))) (p!off Int) (p!len Int)) Bool
+  (has_prefix a!arr a!off a!len p!arr p!off p!len))
+; opaque-else
+(declare-fun under_prefix ((Array Int (_ BitVec 8)) Int Int (Array Int (_ BitVec 8)) Int Int) Bool)
+(assert (forall ((a (Array Int (_ BitVec 8))) (ao Int) (al Int) (p (Array Int (_ BitVec 8))) (po Int) (pl Int))
+  (! (= (under_prefix a ao al p po pl) (has_prefix a ao al p po pl)) :pattern ((under_prefix a ao al p po pl)))))
+; opaque-end
 (define-fun has_suffix ((a!arr (Array Int (_ BitVec 8))) (a!off Int) (a!len Int) (p!arr (Array Int (_ BitVec 8))) (p!off Int) (p!len Int)) Bool
   (and (<= p!len a!len)
        (forall ((i Int)) (=> (and (<= 0 i) (< i p!len)) (= (select a!arr (+ a!off (- a!len p!len) i)) (select p!arr (+ p!off i)))))))
